@@ -21,7 +21,7 @@ RULE = ("schemas with required fields (with and without defaults), schema-level 
         "are own required fields / schema validators of a disabled sub-configuration; inserted list items with a "
         "missing required field must be rejected; non-trivial = >= 1 returning call judged plus >= 1 further call (returning or raising); distinct = "
         "distinct (schema, calls)")
-REQUIRED = ("documents_listing_feature_flags_last", "config_types_with_validators_registered_after_make_type", "trees_with_a_section_given_as_configuration_object", "same_file_loaded_again_after_in_place_change", "feature_flags_redeclared_as_plain_booleans", "schemas_with_shared_validator_decorator", "schemas_with_sections_named_like_config_methods", "sections_shared_with_a_second_parent", "loads_with_empty_required_values", "reinsertions_of_invalidated_members", "calls_returned_judged", "calls_raised", "required_walks", "validator_log_checks", "collect_mode_compared",
+REQUIRED = ("fields_with_two_registered_validators", "documents_listing_feature_flags_last", "config_types_with_validators_registered_after_make_type", "trees_with_a_section_given_as_configuration_object", "same_file_loaded_again_after_in_place_change", "feature_flags_redeclared_as_plain_booleans", "schemas_with_shared_validator_decorator", "schemas_with_sections_named_like_config_methods", "sections_shared_with_a_second_parent", "loads_with_empty_required_values", "reinsertions_of_invalidated_members", "calls_returned_judged", "calls_raised", "required_walks", "validator_log_checks", "collect_mode_compared",
             "exemption_cases_judged", "list_item_insertions_judged", "call:load_tree", "call:loads", "call:load", "call:validate",
             "flags_off_seen", "failing_validators_seen")
 ASSUMPTIONS = ["one-directional: nothing is demanded of calls that raise, except the exemption of disabled sub-configurations",
@@ -60,6 +60,10 @@ def decorate(rng, node, depth=0):
                 ch["params"]["required"] = True
             if rng.random() < 0.25:
                 ch["params"]["validator"] = rng.choice(["pass"] * 6 + ["fail", "boom"])
+                if rng.random() < 0.3 and ch["family"] not in ("list", "dict"):
+                    # ... and a second one registered later: both count (the first may be the one that says no)
+                    ch["params"]["validator2"] = "pass"
+                    node["two_field_validators"] = True
 
 
 def _empty_some_required(rng, node, tree):
@@ -275,6 +279,8 @@ def run(case, ctx, res):
     if any(nd.get("late_validators") for _p, nd in spec.walk(case["schema"])) or any(
             (nd.get("item") or {}).get("late_validators") for _p, nd in spec.walk(case["schema"])):
         res.count("config_types_with_validators_registered_after_make_type")
+    if any(nd.get("params", {}).get("validator2") for _p, nd in spec.walk(case["schema"])):
+        res.count("fields_with_two_registered_validators")
     if any(nd.get("shared_decorator") for _p, nd in [("", case["schema"])] + list(spec.walk(case["schema"]))):
         res.count("schemas_with_shared_validator_decorator")
     twin = None
